@@ -5,6 +5,13 @@ compiled driver `gindrv`.
 -/
 namespace Gin
 
+/-- `str.split(c)` for a one-character separator, by structural recursion on the characters (so that
+    closed instances reduce in the kernel, unlike `String.splitOn`) -/
+def splitAux (c : Char) : List Char → List Char → List (List Char)
+  | [], acc => [acc.reverse]
+  | x :: xs, acc => if x = c then acc.reverse :: splitAux c xs [] else splitAux c xs (x :: acc)
+def splitChar (s : String) (c : Char) : List String := (splitAux c s.toList []).map String.ofList
+
 /-- A dotted name split into components, outermost first (`'a.b.c'` ↦ `["a","b","c"]`). -/
 abbrev Sel := List String
 
